@@ -20,6 +20,8 @@ TRIGGERS = [
     "del m.Q (unreferenced childless parametric space with ItemSpaces)",   # 12
     "del QQ.QC (child of a parametric space)",                  # 13
     "del m.QQ (parametric space with a child space)",           # 14
+    "del m.PP (its child space PP.PC2 is the base of QD, QD the base of QD2)",   # 15
+    "del m.US (space whose uncached and cached cells another space's value was computed from)",   # 16
 ]
 
 PROBES_COMMON = ["name", "fullname", "parent", "model", "doc", "allow_none"]
@@ -130,6 +132,15 @@ def delete(g: int, h: int, bx: int, x: int, y: int, sh: int, z: int, k: int, tri
             H.update({"QQ.QC": (Q.QC, "space"), "QQ.QC.qc": (Q.QC.qc, "cells")})
             if trig == 14:
                 H.update({"QQ": (Q, "space"), "QQ.qh": (Q.qh, "cells")})
+        elif trig == 16:
+            H.update({"US": (live.US, "space"), "US.uu": (live.US.uu, "cells"), "US.uc": (live.US.uc, "cells")})
+        elif trig == 15:
+            QD, QD2 = live.QD, live.QD2
+            if pre == 1:
+                QD.cf(), QD2.cf()
+            H.update({"PP": (live.PP, "space"), "PP.PC2": (live.PP.PC2, "space"), "PP.PC2.cf": (live.PP.PC2.cf, "cells"),
+                      "QD.cf(derived)": (QD.cf, "cells"), "QD2.cf(derived)": (QD2.cf, "cells")})
+            alive["QD"], alive["QD2"] = QD, QD2
         impls = _impls(H)
     if (trig in (5, 6, 9, 10) and pre == 0) or trig == 7:
         return True            # no instance exists yet / closing a model is not a deletion in the sense of C13 (see C19)
@@ -165,6 +176,10 @@ def delete(g: int, h: int, bx: int, x: int, y: int, sh: int, z: int, k: int, tri
         r = call(delattr, live.QQ, "QC")
     elif trig == 14:
         r = call(delattr, m, "QQ")
+    elif trig == 15:
+        r = call(delattr, m, "PP")
+    elif trig == 16:
+        r = call(delattr, m, "US"); call(delattr, fresh.m, "US")
     if not check(r[0] == "ok", "deletion raised", lambda: r):
         return False
     # ---- old handles
@@ -214,6 +229,11 @@ def delete(g: int, h: int, bx: int, x: int, y: int, sh: int, z: int, k: int, tri
             m._impl._check_sanity()
         except AssertionError:
             sane = False
+    if trig == 15:
+        with notrace():
+            leftover = (sorted(live.QD.cells), sorted(live.QD._own_refs), sorted(live.QD2.cells), [b.name for b in live.QD.bases])
+        if not check(leftover == ([], [], [], []), "members derived from the deleted space's child remain in its sub spaces", lambda: leftover):
+            return False
     if not check(not left, "dependency graph still has nodes of a deleted object", lambda: left):
         return False
     if not check(not leftref, "reference graph still has nodes of a deleted object", lambda: leftref):
@@ -223,7 +243,7 @@ def delete(g: int, h: int, bx: int, x: int, y: int, sh: int, z: int, k: int, tri
     if not check(sane, "model._check_sanity() after deletion"):
         return False
     # ---- dependants re-evaluate to the values of a model that only saw the deletion
-    if trig in (0, 1, 3, 4, 5, 6, 8, 10, 11):
+    if trig in (0, 1, 3, 4, 5, 6, 8, 10, 11, 16):
         a, b = live.observe(), fresh.observe()
         for n in OBSERVERS:
             if not check(same_outcome(a[n], b[n]), "dependant " + n, lambda: (a[n], b[n])):
